@@ -39,11 +39,13 @@ type zObs struct {
 	Err string `json:"err"`
 }
 
-func (Garbage) Name() string                    { return "Garbage" }
-func (Garbage) MC(tier string) (string, string) { return "MC_Garbage.tla", "MC_Garbage_" + tier + ".cfg" }
-func (Garbage) Trace() (string, string)         { return "Trace_Garbage.tla", "Trace_Garbage.cfg" }
-func (Garbage) Cap(tier string) int             { return 0 }
-func (Garbage) Layouts(tier string) int         { return 1 }
+func (Garbage) Name() string { return "Garbage" }
+func (Garbage) MC(tier string) (string, string) {
+	return "MC_Garbage.tla", "MC_Garbage_" + tier + ".cfg"
+}
+func (Garbage) Trace() (string, string) { return "Trace_Garbage.tla", "Trace_Garbage.cfg" }
+func (Garbage) Cap(tier string) int     { return 0 }
+func (Garbage) Layouts(tier string) int { return 1 }
 
 var (
 	gbOnce  sync.Once
